@@ -18,7 +18,7 @@ Import ListNotations.
 From BB Require Import BN Brute SpaceFacts TrapFacts PercolateFacts AttractorFacts Diagram Invariants Checks Filter
   Strict PetriNet Control Meta FilterFacts PetriNetFacts TrappistFacts DiagramStruct DiagramSem1 DiagramCache
   DiagramDepth DiagramComplete Termination ControlFacts MetaFacts Candidates StrictFacts MinExpandFacts CandidatesFacts SymbolicTest SymbolicTestFacts Signed ReductionFacts ControlFacts2 Main Blocks BlocksFacts ObsFacts OwnerFacts CandidatesTerm
-  PartialOwner BlockMath BlockComplete ASeeds ASeedsFacts LogChecks SkipRule SkipRuleFacts Names NamesFacts Perm PermFacts SCC SCCFacts SCCStruct ControlFacts3 SCCTerm FilterSym Main2 StrategyFacts ControlFacts4 PyLib PySrc PySrcFacts.
+  PartialOwner BlockMath BlockComplete ASeeds ASeedsFacts LogChecks SkipRule SkipRuleFacts Names NamesFacts Perm PermFacts SCC SCCFacts SCCStruct ControlFacts3 SCCTerm FilterSym Main2 StrategyFacts ControlFacts4 PyLib PySrc PySrcFacts SkipRuleFacts2.
 
 Theorem C05_skip_ops_keep_wellformed : forall (fuel : nat) (N : net) (cfg : config) (d : sd) (o : op), SWF N d -> SWF N (fst (step fuel N cfg d o)).
 Proof. exact step_SWF. Qed.
@@ -57,6 +57,14 @@ Proof. exact ideal_seeds_sound. Qed.
 Theorem C05_rule_only_for_skip_nodes : forall (d : sd) (c : cache) (i : nat), n_skip (get d i) = false -> avoid_of d c i = (if n_exp (get d i) then out_motifs d i else []).
 Proof. exact no_skip_no_exclusion. Qed.
 
+(* whatever was computed before, a leaf (minimal trap space) reports every attractor inside it *)
+Theorem C05_leaf_attractors_never_lost : forall (N : net) (d : sd) (i : nat) (L : list state), i < size d -> is_minimal d i = true -> n_skip (get d i) = false -> In L (attractors_b N) -> L <> [] -> inside_b L (n_space (get d i)) = true -> represented (seeds_everywhere N d) L = true.
+Proof. exact leaf_attractors_represented. Qed.
+
+(* the positive half: without motif-avoidant attractors a diagram completed by skipping loses no attractor; the loss of C05_refuted needs a motif-avoidant attractor *)
+Theorem C05_no_maa_nothing_lost : forall (N : net) (d : sd), MinFound N d -> (forall i : nat, i < size d -> is_minimal d i = true -> n_skip (get d i) = false) -> (forall L : list state, In L (attractors_b N) -> L <> [] /\ (exists M : space, min_trap N M /\ inside_b L M = true)) -> lost (attractors_b N) (seeds_everywhere N d) = [].
+Proof. exact no_maa_nothing_lost. Qed.
+
 Print Assumptions C05_skip_ops_keep_wellformed.
 Print Assumptions C05_skip_ops_keep_faithful.
 Print Assumptions C05_skip_ops_clear_caches.
@@ -68,3 +76,5 @@ Print Assumptions C05_refuted_attractor.
 Print Assumptions C05_witness_counts.
 Print Assumptions C05_ideal_seeds_sound.
 Print Assumptions C05_rule_only_for_skip_nodes.
+Print Assumptions C05_leaf_attractors_never_lost.
+Print Assumptions C05_no_maa_nothing_lost.
